@@ -140,17 +140,32 @@ def tk_semantics(tkc):
 
 def build_tk(spec):
     import pytket
-    c = pytket.Circuit(spec["nq"], spec["nb"])
+    if spec.get("split"):
+        # the same circuit on named registers: qubits a[..] then b[..], bits c[..] then d[..]
+        # (what a circuit read from OpenQASM with several qreg/creg looks like); unit k of the
+        # spec is the k-th unit in tket's own (sorted) order
+        from pytket.circuit import Qubit, Bit
+        kq, kb = spec["split"]
+        Q = [Qubit("a", i) if i < kq else Qubit("b", i - kq) for i in range(spec["nq"])]
+        Bt = [Bit("c", i) if i < kb else Bit("d", i - kb) for i in range(spec["nb"])]
+        c = pytket.Circuit()
+        for u in Q:
+            c.add_qubit(u)
+        for u in Bt:
+            c.add_bit(u)
+    else:
+        c = pytket.Circuit(spec["nq"], spec["nb"])
+        Q, Bt = list(range(spec["nq"])), list(range(spec["nb"]))
     for g in spec["gates"]:
         name = g[0]
         if name in ("Rx", "Rz"):
-            getattr(c, name)(g[1], g[2])
+            getattr(c, name)(g[1], Q[g[2]])
         elif name == "CRz":
-            c.CRz(g[1], g[2], g[3])
+            c.CRz(g[1], Q[g[2]], Q[g[3]])
         elif name == "Measure":
-            c.Measure(g[1], g[2])
+            c.Measure(Q[g[1]], Bt[g[2]])
         else:
-            getattr(c, name)(*g[1:])
+            getattr(c, name)(*[Q[x] for x in g[1:]])
     return c
 
 
@@ -195,7 +210,10 @@ def gen_tk_spec(rng, max_q=5, max_b=2, max_gates=7, kinds=None):
                 gates.append([k, phase, a, b])
         elif k == "Measure" and nb:
             gates.append([k, rng.randrange(nq), rng.randrange(nb)])
-    return {"nq": nq, "nb": nb, "gates": gates}
+    spec = {"nq": nq, "nb": nb, "gates": gates}
+    if nq >= 2 and rng.random() < 0.15:
+        spec["split"] = [rng.randint(1, nq - 1), rng.randint(0, nb)]
+    return spec
 
 
 # ---------------------------------------------------------------------------
